@@ -138,35 +138,50 @@ pub fn child(args: &Args) {
     println!("{obs}");
 }
 
+fn run_child(exe: &std::path::Path, case: &Value, watchdog: Duration) -> (Option<std::process::ExitStatus>, String) {
+    let mut child = Command::new(exe)
+        .args(["child", "lattice", "--case", &case.to_string()])
+        .stdout(Stdio::piped())
+        .stderr(Stdio::null())
+        .spawn()
+        .expect("spawn child");
+    let start = Instant::now();
+    let status = loop {
+        match child.try_wait().unwrap() {
+            Some(st) => break Some(st),
+            None if start.elapsed() > watchdog => {
+                let _ = child.kill();
+                let _ = child.wait();
+                break None;
+            }
+            None => std::thread::sleep(Duration::from_millis(2)),
+        }
+    };
+    let mut text = String::new();
+    if let Some(mut so) = child.stdout.take() {
+        let _ = so.read_to_string(&mut text);
+    }
+    (status, text)
+}
+
 pub fn replay(args: &Args) {
     let cases = util::read_ndjson(args.get("exp"));
     let mut out = Out::create(args.get("out"));
     let exe = std::env::current_exe().unwrap();
     let watchdog = Duration::from_secs(args.num("watchdog", 30));
+    let mut confirmed_hangs = 0;
     for row in cases.iter() {
         let id = row["id"].as_i64().unwrap();
         let case = &row["exp"];
-        let mut child = Command::new(&exe)
-            .args(["child", "lattice", "--case", &case.to_string()])
-            .stdout(Stdio::piped())
-            .stderr(Stdio::null())
-            .spawn()
-            .expect("spawn child");
-        let start = Instant::now();
-        let status = loop {
-            match child.try_wait().unwrap() {
-                Some(st) => break Some(st),
-                None if start.elapsed() > watchdog => {
-                    let _ = child.kill();
-                    let _ = child.wait();
-                    break None;
-                }
-                None => std::thread::sleep(Duration::from_millis(2)),
+        // a point that does not return within the watchdog is run once more with four times the time before it is
+        // called a hang (a loaded machine must not produce an alarm); after two confirmed hangs the verdict of the run
+        // is settled and further points are not retried
+        let (mut status, mut text) = run_child(&exe, case, watchdog);
+        if status.is_none() && confirmed_hangs < 2 {
+            (status, text) = run_child(&exe, case, watchdog * 4);
+            if status.is_none() {
+                confirmed_hangs += 1;
             }
-        };
-        let mut text = String::new();
-        if let Some(mut so) = child.stdout.take() {
-            let _ = so.read_to_string(&mut text);
         }
         let mut bad = Vec::new();
         match status {
